@@ -21,8 +21,8 @@
 //     watchdog with the value false (= its predicate), owning its user lock.
 //
 // Monitors (model independent, the property itself):
-//   not_woken_after_other_left   a remaining waiter did not return within 6 s of request_stop's start
-//   leaver_no_return             a waiter whose predicate was set + notified did not return within 6 s
+//   not_woken_after_other_left   a remaining waiter did not return within 10 s of request_stop's start
+//   leaver_no_return             a waiter whose predicate was set + notified did not return within 10 s
 //   returned_without_stop        a remaining waiter returned before stop was requested with its predicate false
 //   value                        wrong return value (leaver: true, remaining: false) / lock not owned
 //   request_stop                 request_stop() returned false / did not return
@@ -80,7 +80,7 @@ static std::uint64_t mix_seed(std::uint64_t z)
 static std::atomic<int> g_case{-1};
 static std::atomic<long> g_heartbeat{0};
 static char g_order[32] = "none";
-static constexpr int WATCHDOG_MS = 6000;
+static constexpr int WATCHDOG_MS = 10000;
 
 static void spin_for_ns(std::uint64_t ns)
 {
@@ -287,7 +287,7 @@ static void run_case(Plan const& p, Rng& rng)
         if (started_late < p.late) { start(p.K + started_late); ++started_late; }
         if (p.handshake_leave && !wait_until_true([&] { return c->w[i]->ret.load() != -1; }, WATCHDOG_MS))
             fail_exit("leaver_no_return", "waiter " + std::to_string(i) + " (" + std::string(1, c->w[i]->kind) +
-                ") did not return from wait(lock, stop_token, pred) within 6 s after its predicate was set and its cv notified");
+                ") did not return from wait(lock, stop_token, pred) within 10 s after its predicate was set and its cv notified");
         if (rng.chance(1, 2)) spin_for_ns(rng.below(40) * 1000);
     }
     while (started_late < p.late) { start(p.K + started_late); ++started_late; }
@@ -295,7 +295,7 @@ static void run_case(Plan const& p, Rng& rng)
     {
         if (!wait_until_true([&] { return c->w[i]->finished.load(); }, WATCHDOG_MS))
             fail_exit("leaver_no_return", "waiter " + std::to_string(i) + " (" + std::string(1, c->w[i]->kind) +
-                ") did not return from wait(lock, stop_token, pred) within 6 s after its predicate was set and its cv notified");
+                ") did not return from wait(lock, stop_token, pred) within 10 s after its predicate was set and its cv notified");
         if (c->w[i]->ret.load() != 1 || !c->w[i]->owned.load())
             fail_exit("value", "waiter " + std::to_string(i) + " left with its predicate true but wait returned false / without the lock");
     }
@@ -331,14 +331,14 @@ static void run_case(Plan const& p, Rng& rng)
             int back = 0;
             for (int j = 0; j < total; ++j) if (!leaver[j] && c->w[j]->ret.load() != -1) ++back;
             std::ostringstream d;
-            d << "waiter " << i << " (" << c->w[i]->kind << ") still inside wait(lock, stop_token, pred) 6 s after request_stop() was called (request_stop "
+            d << "waiter " << i << " (" << c->w[i]->kind << ") still inside wait(lock, stop_token, pred) 10 s after request_stop() was called (request_stop "
               << (req.load() == -1 ? "has not returned" : "returned") << "; " << back << " of " << remaining
               << " remaining waiters returned; " << p.leave.size() << " others had left before)";
             fail_exit("not_woken_after_other_left", d.str());
         }
     }
     if (!wait_until_true([&] { return req.load() != -1; }, left_ms()))
-        fail_exit("request_stop", "request_stop() did not return within 6 s");
+        fail_exit("request_stop", "request_stop() did not return within 10 s");
     if (p.os_requester) os_req.join(); else task_req.join();
     if (req.load() != 1) fail_exit("request_stop", "the first request_stop() on the source returned false");
     for (int i = 0; i < total; ++i)
